@@ -15,7 +15,7 @@ import (
 )
 
 var c09Floor = []string{"key", "key.missing", "key.on-array", "key.quoted", "key.quoted.steplike", "key.quoted.plain", "fn.reregistered", "index", "index.multi", "each", "each.flatten", "keep", "range", "range.begin", "range.end",
-	"pipe", "pipe.string", "pipe.number", "pipe.on-array", "continue", "fn.mix", "fn.distinct", "fn.custom", "err.index-oob", "err.index-negative", "err.range-oob", "err.shape", "err.fn", "null.path", "readme.form"}
+	"pipe", "pipe.string", "pipe.number", "pipe.on-array", "continue", "fn.mix", "fn.distinct", "fn.custom", "err.index-oob", "err.index-negative", "err.range-oob", "err.shape", "err.fn", "null.path", "readme.form", "continue.fn-after-null", "pipe.number.zero-padded", "pipe.string.fraction", "pipe.number.on-number"}
 
 func init() {
 	genql.RegisterTopLevelFunction("vsize", func(v any) (any, error) {
@@ -25,6 +25,8 @@ func init() {
 		}
 		return float64(len(a)), nil
 	})
+	genql.RegisterTopLevelFunction("visnull", func(v any) (any, error) { return v == nil, nil })
+	ref.TopFns["visnull"] = func(v any) (any, error) { return v == nil, nil }
 	ref.TopFns["vsize"] = func(v any) (any, error) {
 		a, ok := v.([]any)
 		if !ok {
@@ -41,7 +43,7 @@ func init() {
 			"ExecReader is called twice (cold and warm parse cache, second time on another copy) and must agree with the reference selector evaluator in value and in error-ness, never panic, and leave the document unchanged. " +
 			"Phase 'bytes': arbitrary byte strings and mutated selectors - totality only (no panic, document unchanged). Non-trivial = a successful evaluation with at least 2 steps whose value is not NULL, or an expected error; distinct = distinct (document, selector).",
 		Assumptions: []string{
-			"where the README is silent the generator stays out: non-keep index lists that would flatten into array leaves, a dimension after a range, |string on fractional numbers or missing keys, negative indices, mix=> on objects, distinct over values that print alike (all reported as out-of-domain discards)",
+			"where the README is silent the generator stays out: non-keep index lists that would flatten into array leaves, a dimension after a range, |string on missing keys, negative indices, mix=> on objects, distinct over values that print alike (all reported as out-of-domain discards)",
 			"errors are compared as 'is an error', never by message; ranges are end-exclusive as the repository's own TestSelectDimension fixes it",
 		},
 		Floor:         c09Floor,
@@ -157,8 +159,9 @@ func c09Doc(c *fw.Case) map[string]any {
 	doc := c09Object(c, 4)
 	users := make([]any, c.Intn(5))
 	for i := range users {
-		u := map[string]any{"id": float64(i + 1), "name": gen.RandString(c.R, gen.Plain, 2), "active": c.Chance(0.5), "numstr": fmt.Sprint(c.Intn(50)),
-			"createdAt": float64(1000 + c.Intn(100)), "email": []any{[]any{"a@x", "b@x"}, []any{"c@x"}}}
+		u := map[string]any{"id": float64(i + 1), "name": gen.RandString(c.R, gen.Plain, 2), "active": c.Chance(0.5), "numstr": gen.Pick(c.R, []string{"", "", "0", "00", "0"}) + fmt.Sprint(c.Intn(50)),
+			"createdAt": float64(1000 + c.Intn(100)), "email": []any{[]any{"a@x", "b@x"}, []any{"c@x"}},
+			"score": gen.Pick(c.R, []any{0.1, 2.5, 1e-7, 123456.789, 1e19, 1234567.0, -0.75})}
 		if c.Chance(0.7) {
 			u["addr"] = map[string]any{"city": gen.Pick(c.R, []any{"Oslo", "Rome", "Lima"}), "geo": []any{float64(c.Intn(90)), float64(c.Intn(90))}}
 		}
@@ -338,7 +341,7 @@ func c09Selector(c *fw.Case, doc map[string]any, force string, feats *[]string) 
 	for i := 0; i < steps; i++ {
 		switch t := rep.(type) {
 		case map[string]any:
-			if (force == "pipe" || force == "pipe.string" || force == "pipe.number" || c.Chance(0.12)) && len(t) > 0 {
+			if (force == "pipe" || (strings.HasPrefix(force, "pipe.") && force != "pipe.on-array") || c.Chance(0.12)) && len(t) > 0 {
 				ps := ref.PipeStep{}
 				for k, v := range t {
 					if len(ps.Fields) >= 3 {
@@ -347,14 +350,24 @@ func c09Selector(c *fw.Case, doc map[string]any, force string, feats *[]string) 
 					f := ref.PipeField{Key: k}
 					switch x := v.(type) {
 					case float64:
-						if x == float64(int64(x)) && (force == "pipe.string" || c.Chance(0.5)) {
+						if force == "pipe.string" || c.Chance(0.4) {
 							f.Type = "string"
 							feat("pipe.string")
-						}
-					case string:
-						if _, err := fmt.Sscanf(x, "%f", new(float64)); err == nil && (force == "pipe.number" || c.Chance(0.5)) {
+							if x != float64(int64(x)) {
+								feat("pipe.string.fraction")
+							}
+						} else if c.Chance(0.3) {
 							f.Type = "number"
 							feat("pipe.number")
+							feat("pipe.number.on-number")
+						}
+					case string:
+						if _, err := fmt.Sscanf(x, "%f", new(float64)); err == nil && (force == "pipe.number" || force == "pipe.number.zero-padded" || c.Chance(0.5) || (len(x) > 1 && x[0] == '0' && c.Chance(0.8))) {
+							f.Type = "number"
+							feat("pipe.number")
+							if len(x) > 1 && x[0] == '0' && x[1] >= '0' && x[1] <= '9' {
+								feat("pipe.number.zero-padded")
+							}
 						} else if c.Chance(0.3) {
 							f.Type = "string"
 							feat("pipe.string")
@@ -591,6 +604,18 @@ func c09Grammar(c *fw.Case) {
 		}
 		feats = append(feats, "fn.distinct", "key")
 	}
+	if force == "continue.fn-after-null" || (force == "" && c.Chance(0.03)) {
+		// a function applied to a continuation whose previous result is NULL:
+		// it is applied to NULL (or reported as unknown), not skipped
+		first := ref.Segment{Steps: []ref.SelStep{ref.KeyStep{Name: gen.Pick(c.R, []string{"nokey", "zz_missing"})}}}
+		if c.Chance(0.4) {
+			first.Steps = append(first.Steps, ref.KeyStep{Name: gen.Pick(c.R, c09Keys)})
+		}
+		sel = ref.Selector{Segments: []ref.Segment{first, {Fn: gen.Pick(c.R, []string{"visnull", "vsize", "nosuchfn", "visnull"})}}}
+		delete(doc, "nokey")
+		delete(doc, "zz_missing")
+		feats = append(feats, "continue", "continue.fn-after-null")
+	}
 	text := sel.Render()
 	want, werr := ref.EvalSelector(sel, val.Copy(doc))
 	if werr != nil && errors.Is(werr, ref.ErrDomain) {
@@ -814,7 +839,6 @@ func c09Witness(c *fw.Case, w *fw.Finding) {
 		c.Violate("value", fmt.Sprintf("witness %s: value differs", w.ID), det)
 	}
 }
-
 
 // c09Registry: `fn=>` applies the function that is registered under the name -
 // also when the application registers its own function under a name the
